@@ -53,7 +53,14 @@ def eval_case(case, rng):
     elif mform.startswith("pairs"):
         k = rng.randrange(1, 5)
         srcs = rng.sample(PORTS, k)
-        mapargs = [f"{a}:{rng.choice([a, a, 8080, 80, 1, 65535, 443, 44330, rng.choice(PORTS), tcpcap.map_target(rng)])}" for a in srcs]     # incl. identity pairs a:a
+        # targets incl. identity pairs a:a and, now and then, the very port a client of that server connected from (the two ends of the exported conversation then carry
+        # the same port number - on different addresses)
+        def target(a):
+            mine = [f.ep.cport for f in flows if f.ep.sport == a]
+            if mine and rng.random() < 0.3:
+                return rng.choice(mine)
+            return rng.choice([a, a, 8080, 80, 1, 65535, 443, 44330, rng.choice(PORTS), tcpcap.map_target(rng)])
+        mapargs = [f"{a}:{target(a)}" for a in srcs]
         shown = [m + "," if (mform == "pairs-commas" and j < len(mapargs) - 1) else m for j, m in enumerate(mapargs)]
         extra += ["-m"] + shown
     if rng.random() < 0.5:       # option order must not matter
